@@ -400,7 +400,7 @@ func (h *Session) Notify(frame Frame) {
 			return
 		}
 		verifYield("Notify:before-lookup")
-		frame.Host = h.findIP(frame.SrcAddr.IP)
+		frame.Host = h.FindIP(frame.SrcAddr.IP) // lookup with the session lock: purge may be deleting hosts
 		if frame.Host == nil {
 			return
 		}
